@@ -227,6 +227,15 @@ func checkEngine(ctx *pbt.Ctx, c EngCase) error {
 			return fmt.Errorf("job %d %+v: sequential verdict %q, concurrent verdict (goroutine %d of %d, GOMAXPROCS %d) %q",
 				i, c.Jobs[i], seq[i], c.Jobs[i].Owner, c.Goroutines, c.Procs, conc[i])
 		}
+		// what the verdict has to be is known by construction for four kinds of job (every hash type
+		// drawn carries FORKID, so the spent amount is always committed): a sequential phase that is
+		// wrong in the same way as the concurrent one is still wrong
+		switch k := c.Jobs[i].Kind; {
+		case k == "valid" && seq[i] != "":
+			return fmt.Errorf("job %d %+v: a spend signed by the library for the key the output pays is rejected (sequential phase, after %d other validations in this process): %s", i, c.Jobs[i], i, seq[i])
+		case (k == "sigflip" || k == "wrongkey" || k == "amount") && seq[i] == "":
+			return fmt.Errorf("job %d %+v: a corrupted spend (%s) is accepted (sequential phase)", i, c.Jobs[i], k)
+		}
 		if seq[i] == "" {
 			nOK++
 		} else {
@@ -268,6 +277,16 @@ func genEngine(t *rapid.T) EngCase {
 		b[0] &= 0x7f
 		b[1] |= 0x01 // never zero, and the wrong-key twin stays in range
 		keys[i] = b
+	}
+	// related keys: the negation N-d of a key of the pool has the same X coordinate and the other
+	// parity - two different keys that anything keyed by a part of the encoding takes for one
+	if rapid.IntRange(0, 2).Draw(t, "negated_keys") == 0 {
+		for i := 0; i < nk; i++ {
+			d := new(big.Int).Sub(curveN, new(big.Int).SetBytes(keys[i]))
+			nb := d.Bytes()
+			keys = append(keys, append(make(pbt.Hex, 32-len(nb)), nb...))
+		}
+		nk = len(keys)
 	}
 	for i := 0; i < n; i++ {
 		j := Job{Kind: rapid.SampledFrom([]string{"valid", "valid", "valid", "sigflip", "wrongkey", "outtamper", "amount", "add", "hash", "prog", "prog", "cond", "cond"}).Draw(t, "kind"),
